@@ -21,6 +21,7 @@ Core Lean only.
 import Wf.Model.Fft
 import Wf.Model.Polynom
 import Wf.Model.Merkle
+import Wf.Model.AirDivisor
 namespace Wf.Lde
 open Wf Wf.Fft
 
@@ -74,7 +75,7 @@ def numRows (polys : ColMatrix E) : Nat := (polys.headD #[]).size
 
 /-- the asserts of `ColMatrix::new` (the type invariant of every `ColMatrix`) -/
 def colMatrixValid (polys : ColMatrix E) : Bool :=
-  !polys.isEmpty && decide (numRows polys > 1) && isPow2 (numRows polys) &&
+  !polys.isEmpty && decide (numRows polys > 1) && Fft.isPow2 (numRows polys) &&
     polys.all (fun p => p.size == numRows polys)
 
 def numBaseCols (x : ExtView B E) (polys : ColMatrix E) : Nat := polys.length * x.degree
@@ -137,7 +138,7 @@ def segChunks (c : Ctx B E) (x : ExtView B E) (N : Nat) (polys : ColMatrix E)
 hold). -/
 def segmentNew (c : Ctx B E) (x : ExtView B E) (N : Nat) (polys : ColMatrix E) (polyOffset : Nat)
     (offsets tws : Array B) : Option (Array (Vector B N)) :=
-  if !isPow2 offsets.size then none
+  if !Fft.isPow2 offsets.size then none
   else if !(decide (offsets.size > numRows polys)) then none
   else if numRows polys != tws.size * 2 then none
   else if !(decide (polyOffset < numBaseCols x polys)) then none
@@ -239,6 +240,59 @@ def evaluatePolys (c : Ctx B E) (x : ExtView B E) (N : Nat) (generator : B) (pol
         match buildSegments c x N polys tws offsets with
         | none => none
         | some segs => fromSegments c.b.zero segs (numBaseCols x polys)
+
+
+/-! ## `StarkDomain` (`prover/src/domain.rs`) -/
+
+/-- the stored fields of `StarkDomain<B>` (`ce_domain` by its length only) -/
+structure StarkDomain (B : Type) where
+  traceTwiddles : Array B
+  ceDomainSize : Nat
+  ceToLdeBlowup : Nat
+  offset : B
+
+def StarkDomain.traceLength (d : StarkDomain B) : Nat := d.traceTwiddles.size * 2
+/-- `trace_to_ce_blowup() = ce_domain_size() / trace_length()` -/
+def StarkDomain.traceToCeBlowup (d : StarkDomain B) : Nat := d.ceDomainSize / d.traceLength
+/-- `lde_domain_size() = ce_domain_size() * ce_to_lde_blowup()` -/
+def StarkDomain.ldeDomainSize (d : StarkDomain B) : Nat := d.ceDomainSize * d.ceToLdeBlowup
+/-- `trace_to_lde_blowup() = lde_domain_size() / trace_length()` -/
+def StarkDomain.traceToLdeBlowup (d : StarkDomain B) : Nat := d.ldeDomainSize / d.traceLength
+
+/-- what `evaluate_polys_over` / `evaluate_columns_over` read from the domain: the trace twiddles, the
+trace-to-LDE blowup (NOT the constraint-evaluation blowup) and the offset -/
+def StarkDomain.toDomain (d : StarkDomain B) : Domain B :=
+  ⟨d.traceTwiddles, d.traceToLdeBlowup, d.offset⟩
+
+/-- `StarkDomain::new(air)`: `get_twiddles(air.trace_length())`, a constraint-evaluation domain of
+`air.ce_domain_size() = trace_length · ce_blowup` points (`get_root_of_unity(ilog2)` asserts),
+`ce_to_lde_blowup = air.lde_domain_size() / air.ce_domain_size()`, `air.domain_offset()` -/
+def starkDomainNew (c : Ctx B E) (traceLen ceBlowup ldeBlowup : Nat) (offset : B) :
+    Option (StarkDomain B) :=
+  match getTwiddles (baseCtx c) traceLen with
+  | none => none
+  | some tws =>
+    if traceLen * ceBlowup = 0 then none
+    else if (traceLen * ceBlowup).log2 = 0 then none
+    else if (traceLen * ceBlowup).log2 > c.twoAdicity then none
+    else some ⟨tws, traceLen * ceBlowup, traceLen * ldeBlowup / (traceLen * ceBlowup), offset⟩
+
+/-- `StarkDomain::new` for an AIR with the given transition-constraint degrees and LDE blowup
+(`AirContext::new`: `ce_blowup_factor` = the largest `min_blowup_factor`, asserted `≤ blowup`) -/
+def starkDomainOfAir (c : Ctx B E) (traceLen : Nat) (degrees : List AirDivisor.TcDegree)
+    (ldeBlowup : Nat) (offset : B) : Option (StarkDomain B) :=
+  match AirDivisor.Ctx.new traceLen degrees ldeBlowup with
+  | none => none
+  | some a => starkDomainNew c traceLen a.ceBlowup ldeBlowup offset
+
+/-- `StarkDomain::from_twiddles(trace_twiddles, blowup_factor, domain_offset)` -/
+def starkDomainFromTwiddles (c : Ctx B E) (tws : Array B) (blowup : Nat) (offset : B) :
+    Option (StarkDomain B) :=
+  if !Fft.isPow2 tws.size then none
+  else if !Fft.isPow2 blowup then none
+  else if (tws.size * blowup * 2).log2 = 0 then none
+  else if (tws.size * blowup * 2).log2 > c.twoAdicity then none
+  else some ⟨tws, tws.size * blowup * 2, 1, offset⟩
 
 /-! ## specification of the LDE -/
 
